@@ -26,17 +26,22 @@ DEVS = {
     "Fieldwise": "D_C10_TornRecordRead",
 }
 ALL_PATHS = ["get", "getbykeys", "count", "exists", "getall", "idx_cold_key", "idx_cold_time", "idx_warm", "bucket_cold", "bucket_warm",
-             "set_upd", "set_new", "inc", "patch", "del", "shift", "filewriter"]
+             "set_upd", "set_new", "inc", "inc_u32", "inc_f64", "u32_push", "u32_del", "u32_read", "patch", "del", "shift", "filewriter"]
 # model path -> driver paths that exercise it
 DRIVER = {
     "get": ["get"], "getbykeys": ["getbykeys"], "count": ["count"], "exists": ["exists"], "getall": ["getall"],
     "idx_cold_key": ["idx_key", "idx_val", "stream"], "idx_cold_time": ["idx_ctime", "idx_utime", "idx_exp"],
     "idx_warm": ["idx_key", "idx_ctime", "idx_exp"], "bucket_cold": ["fstream_cold"], "bucket_warm": ["fstream"],
     "set_upd": ["set_upd"], "set_new": ["set_new"], "inc": ["inc"], "patch": ["patch"], "del": ["del"], "shift": ["shift"],
+    "inc_u32": ["inc_u32"], "inc_f64": ["inc_f64"], "u32_push": ["u32_push"], "u32_del": ["u32_del"], "u32_read": ["u32_read"],
     "filewriter": [],   # implicit: persistent modes
 }
-WRITERS = ["set_new", "set_upd", "inc", "patch", "del", "shift"]
-READERS = ["get", "getall", "getbykeys", "count", "exists", "idx_key", "idx_ctime", "idx_utime", "idx_exp", "idx_val", "stream", "fstream", "fstream_cold"]
+WRITERS = ["set_new", "set_upd", "inc", "inc_u32", "inc_f64", "u32_push", "u32_del", "patch", "del", "shift"]
+# every API path that writes the CONTENT of an existing record, and the read paths that return record content: each
+# content writer is always run against each of them on the same keys (predicted protected or not)
+CONTENT_WRITERS = ["set_upd", "inc", "inc_u32", "inc_f64", "u32_push", "u32_del", "patch"]
+CONTENT_READERS = ["get", "getall", "getbykeys", "idx_key", "stream", "u32_read"]
+READERS = ["get", "getall", "getbykeys", "count", "exists", "idx_key", "idx_ctime", "idx_utime", "idx_exp", "idx_val", "stream", "fstream", "fstream_cold", "u32_read"]
 # read paths that build a derived structure from the key map on first use: always run against every inserting / removing writer
 LAZY_BUILDERS = ["idx_key", "idx_val", "idx_ctime", "idx_utime", "idx_exp", "stream", "fstream_cold"]
 SKIP = ("runtime.", "sync.", "sync/atomic.", "maps.", "internal/", "sort.", "slices.", "strings.", "bytes.", "reflect.", "fmt.", "time.", "iter.")
@@ -244,6 +249,10 @@ def run(ctx):
     # (a') every lazily-built derived structure against the writers that change the key map (predicted protected or not)
     for r_ in LAZY_BUILDERS:
         for w in ("set_new", "del", "shift"):
+            add((w, r_), "mm", iters)
+    # (a'') every writer of record content against every reader of record content
+    for w in CONTENT_WRITERS:
+        for r_ in CONTENT_READERS:
             add((w, r_), "mm", iters)
     # (b) persistent modes for the paths whose steps differ there (BodySetForDeletion, file writer)
     for w in ("del", "shift", "set_upd", "inc"):
